@@ -12,7 +12,7 @@ for d in sorted(glob.glob(os.path.join(V, 'seeded', '*'))):
     notes = open(os.path.join(d, 'notes.md')).read() if os.path.exists(os.path.join(d, 'notes.md')) else ''
     conf = open(os.path.join(d, 'confirm.log')).read() if os.path.exists(os.path.join(d, 'confirm.log')) else ''
     # what it needs to manifest: the paragraph(s) of the notes that talk about the trigger
-    paras = [p.strip() for p in re.split(r'\n\s*\n', notes) if p.strip()]
+    paras = [p.strip() for p in re.split(r'\n\s*\n', notes) if p.strip() and not re.match(r'^#+ [^\n]*$', p.strip())]
     trig = [p for p in paras if re.search(r'trigger|manifest|needs|specific input|only when|requires', p, re.I)]
     files = sorted(set(re.findall(r'^\+\+\+ b/(\S+)', open(os.path.join(d, 'patch.diff')).read(), re.M)))
     det = {}
